@@ -18,11 +18,11 @@ Inductive gate2 := TCnot | TCphase.
 
 (* EPR operations: only their use of classical registers is modelled (C14);
    (transient before the user body, held during the user body, transient after) *)
-Inductive eprkind :=
-| EKeep                 (* create_keep / recv_keep without corrections, measure-type requests: no register *)
-| ERecvCorr             (* recv_keep, expect_phi_plus, wait_all: corrections loop *)
-| EPost (corr : bool)   (* sequential keep with a post routine (body = the routine) *)
-| ECtx.                 (* create/recv EPR context (body = the context body) *)
+Inductive eprkind :=          (* narr = arrays the operation allocates (results, qubit ids, request arguments) *)
+| EKeep (narr : nat)                 (* create_keep / recv_keep without corrections, measure-type requests: no register *)
+| ERecvCorr                          (* recv_keep, expect_phi_plus, wait_all: corrections loop *)
+| EPost (corr : bool) (narr : nat)   (* sequential keep with a post routine (body = the routine) *)
+| ECtx (narr : nat).                 (* create/recv EPR context (body = the context body) *)
 
 (* trace events: qubits are named by allocation instance (k-th `init`) *)
 Inductive tev :=
